@@ -27,6 +27,7 @@ import LogosModel.Generics
 import LogosModel.TypeSubst
 import LogosModel.Panic
 import LogosModel.Utf8Enc
+import LogosModel.Chunked
 import LogosModel.Look.Utf8ClosedC
 import Std.Data.HashMap
 import LogosModel.Source
@@ -493,6 +494,9 @@ def answer (c : Case) (q : List String) : String :=
   | ["WF"] => if c.nodump then "NODUMP" else if wfB c.graph then "OK" else "FAIL"
   | ["LEX", "n", hex] => lexStr c false (unhex hex)
   | ["LEX", "p", hex] => lexStr c true (unhex hex)
+  | ["FEED", cuts, hex] =>
+    -- chunked feeding (Chunked.feed): partial lexers over the prefixes of the given lengths, then an ordinary lexer
+    streamStr c (feed c.graph c.cb c.utf8 (unhex hex) ((cuts.splitOn ",").filterMap String.toNat?) 0)
   | ["SPEC", hex] => specStr c (unhex hex)
   | ["CALLS", hex] => callsStr c (unhex hex)
   | ["SPECCALLS", hex] => specCallsStr c (unhex hex)
